@@ -251,11 +251,16 @@ IdempotentMethods == {"GET", "HEAD", "DELETE"}      \* client.py IDEMPOTENT_METH
 
 ReqDecideD(r, sz, D) ==
     LET hasData  == r.body # "none"
+        \* ClientSession._request: a pooled connection that turns out dead => one retry for idempotent methods;
+        \* the retry is built from the first attempt's Payload object (`data = req._body`), which is truthy even
+        \* when it wraps b"": compress= then applies although it did not on the first attempt
+        retried  == r.pre = "stale" /\ r.m \in IdempotentMethods
         truthy   == r.body \in {"sized", "unsized", "slowSized", "slowUnsized"}      \* `if not data: return`
+                    \/ (retried /\ r.body = "empty")
         slow     == r.body \in {"slowSized", "slowUnsized"}
         noSize   == r.body \in {"unsized", "slowSized", "slowUnsized"}               \* payload.size is None
         userCL   == r.body = "slowSized"                         \* Content-Length among the caller's headers
-        L        == IF truthy THEN sz.n ELSE 0
+        L        == IF truthy /\ r.body # "empty" THEN sz.n ELSE 0
         comp     == r.compress /\ truthy                        \* _update_content_encoding
         ch0      == IF comp THEN "True" ELSE r.chunked           \* self.chunked = True
         chT0     == ch0 = "True"
@@ -286,8 +291,6 @@ ReqDecideD(r, sz, D) ==
         cliCloses == \/ (bodySent = "none" /\ D.WithheldBodyCloses)
                      \/ (bodySent = "part" /\ D.CutBodyCloses)
                      \/ (r.abort # "none" /\ D.CancelCloses)
-        \* ClientSession._request: a pooled connection that turns out dead => one retry for idempotent methods
-        retried  == r.pre = "stale" /\ r.m \in IdempotentMethods
         hostKept == ~r.chost \/ ~retried \/ D.HostKeptOnRetry
     IN [refused |-> refused, cl |-> cl, te |-> te, ce |-> comp, expect |-> expectH,
         wChunked |-> wChunk, sent |-> sent, waits100 |-> waits100, finalEarly |-> finalEarly,
@@ -448,11 +451,16 @@ FailResp(i, D) == LET o == SrvDecideD(i, Sz0, D)
 FailReq(q, D)  == LET o == ReqDecideD(q, Sz0, D) IN
                   IF o.refused THEN {}
                   ELSE LET v == ReqChecks(q, o, SrvReqDecideD(q, o, D)) IN {n \in InvNames : ~v[n]}
+\* the scenario dimensions carry / hook only matter to the switches that concern them
+ExhibitInputs(k) ==
+    IF k = "FailedPrepareCleansWriter" THEN {i \in RespInputs : i.hook = "raise" /\ i.carry = "none"}
+    ELSE IF k = "FreshHeaderContainer" THEN {i \in RespInputs : i.carry = "te" /\ i.hook = "ok"}
+    ELSE {i \in RespInputs : i.carry = "none" /\ i.hook = "ok"}
 Exhibit(k) ==
     LET D   == OnlyOff(k)
         bad == IF k \in ReqSideDevs
                THEN {p \in {<<q, FailReq(q, D)>> : q \in ReqInputs} : p[2] # {}}
-               ELSE {p \in {<<i, FailResp(i, D)>> : i \in RespInputs} : p[2] # {}}
+               ELSE {p \in {<<i, FailResp(i, D)>> : i \in ExhibitInputs(k)} : p[2] # {}}
         wit == IF bad # {} THEN (CHOOSE p \in bad : TRUE)[1] ELSE [none |-> TRUE]
     IN <<"VP", "E", k, UNION {p[2] : p \in bad}, Cardinality(bad), wit>>
 PrintExhibits == TLCGet("distinct") >= 0 /\ \A k \in DevNames : PrintT(Exhibit(k))
